@@ -92,12 +92,14 @@ def _frag(path):
 
 def fixrefs(d, schema):
     """Templates are written as if they were the document root.  Once nested, (1) "#/<defs>/x" has to become the JSON
-    pointer of the definition inside the whole document (percent-encoded as a URI fragment), (2) plain-name anchors
-    have to be unique in the document."""
+    pointer of the definition inside the whole document (percent-encoded as a URI fragment) -- 2019-09/2020-12 --
+    or, in drafts 4-7 where everything next to $ref is ignored (so a pointer into such a sibling is not clearly
+    defined), the definition is hoisted into the root's `definitions`; (2) plain-name anchors are made unique."""
     dk = defs_kw(d)
     local = "#/%s/x" % dk
     akeys = ("$anchor", "$id", "id")
     counter = [0]
+    hoisted = {}
 
     def walk(node, path):
         if isinstance(node, list):
@@ -106,9 +108,14 @@ def fixrefs(d, schema):
             return node
         out = {k: walk(v, path + (k,)) for k, v in node.items()}
         if out.get("$ref") == local and dk in node and path:
-            out["$ref"] = "#" + _frag(path) + "/%s/x" % dk
+            if d in NEW:
+                out["$ref"] = "#" + _frag(path) + "/%s/x" % dk
+            else:
+                name = "h%d" % (len(hoisted) + 1)
+                hoisted[name] = out.pop(dk)["x"]
+                out["$ref"] = "#/%s/%s" % (dk, name)
         x = node.get(dk, {}).get("x") if isinstance(node.get(dk), dict) else None
-        if isinstance(x, dict):
+        if isinstance(x, dict) and dk in out:
             ak = next((k for k in akeys if x.get(k) in ("k", "#k")), None)
             if ak is not None:
                 counter[0] += 1
@@ -121,7 +128,12 @@ def fixrefs(d, schema):
         return out
     if not isinstance(schema, dict):
         return schema
-    return walk(schema, ())
+    r = walk(schema, ())
+    if hoisted:
+        defs = dict(r.get(dk, {}))
+        defs.update(hoisted)
+        r[dk] = defs
+    return r
 
 
 def prefix_kw(d):
@@ -211,6 +223,30 @@ def unary_templates(d):
         U["depS"] = lambda S: {"dependentSchemas": {"a": S}}
     else:
         U["depS"] = lambda S: {"dependencies": {"a": S}}
+    # $ref to the location of a subschema under an applicator keyword (plain JSON pointers into the document)
+    depk = "dependentSchemas" if d in NEW else "dependencies"
+    U["refloc_props"] = lambda S: {"properties": {"a": S, "b": {"$ref": "#/properties/a"}}}
+    U["refloc_pat"] = lambda S: {"patternProperties": {"a+": S}, "properties": {"b": {"$ref": "#/patternProperties/a+"}}}
+    U["refloc_pat_enc"] = lambda S: {"patternProperties": {"^a": S}, "properties": {"b": {"$ref": "#/patternProperties/%5Ea"}}}
+    U["refloc_dep"] = lambda S: {depk: {"a": S}, "properties": {"b": {"$ref": "#/%s/a" % depk}}}
+    U["refloc_addprops"] = lambda S: {"additionalProperties": S, "properties": {"a": {"$ref": "#/additionalProperties"}}}
+    U["refloc_not"] = lambda S: {"not": S, "properties": {"a": {"$ref": "#/not"}}}
+    U["refloc_allOf"] = lambda S: {"allOf": [S], "properties": {"a": {"$ref": "#/allOf/0"}}}
+    if d == "2020":
+        U["refloc_prefix"] = lambda S: {"prefixItems": [S], "items": {"$ref": "#/prefixItems/0"}}
+        U["refloc_rest"] = lambda S: {"prefixItems": [{"$ref": "#/items"}], "items": S}
+    else:
+        U["refloc_prefix"] = lambda S: {"items": [S], "additionalItems": {"$ref": "#/items/0"}}
+        U["refloc_rest"] = lambda S: {"items": [{"$ref": "#/additionalItems"}], "additionalItems": S}
+    if d != "4":
+        U["refloc_contains"] = lambda S: {"contains": S, "properties": {"a": {"$ref": "#/contains"}}}
+        U["refloc_propnames"] = lambda S: {"propertyNames": S, "properties": {"a": {"$ref": "#/propertyNames"}}}
+    if ge(d, "7"):
+        U["refloc_if"] = lambda S: {"if": S, "properties": {"a": {"$ref": "#/if"}}}
+        U["refloc_then"] = lambda S: {"if": True, "then": S, "properties": {"a": {"$ref": "#/then"}}}
+    if d in NEW:
+        U["refloc_uprops"] = lambda S: {"properties": {"a": {"$ref": "#/unevaluatedProperties"}}, "unevaluatedProperties": S}
+        U["refloc_uitems"] = lambda S: {"properties": {"a": {"$ref": "#/unevaluatedItems"}}, "unevaluatedItems": S}
     if d != "4":
         U["propnames"] = lambda S: {"propertyNames": S}
         U["contains"] = lambda S: {"contains": S}
@@ -439,7 +475,7 @@ ARR_EXTRA = [[1, 1, 1], ["a"], ["a", 1], [1, 1.0], [1, True], [0, False], [[1], 
              [1, "a", "a"], [[1]]]
 OBJ_EXTRA = [{"a": "x"}, {"ab": 1}, {"a": 1, "b": 1, "c": 1}, {"a": None}, {"a": {"a": 1}}, {"a": {"a": "x"}}, {"b": "x", "c": 1}]
 EQ_EXTRA = [False, 0.0, [1.0], {"a": 1.0}, "1", {"b": "x", "a": 1}, [None], 1e300]
-TYPE_EXTRA = [False, -0.0, 3.0, 1e300, 0.5]
+TYPE_EXTRA = [False, -0.0, 3.0, 1e300, 1e19, 0.5]
 UE_INST = [{}, {"a": 1}, {"a": 1, "b": "x"}, {"b": 1}, {"a": "x"}, {"ab": 1}, {"a": 1, "b": 1, "c": 1}, {"b": "x", "c": 1}, {"c": 1}, 1, [1]]
 UI_INST = [[], [1], [1, 1], [1, "a"], ["a"], ["a", 1], [1, 1, 1], [1, "a", "a"], ["a", "a", 1], 1, {"a": 1}]
 
